@@ -2,7 +2,7 @@
 # tools/seed_import.sh C03  -- import /tmp/wt/C03/_seed/{a,b} into /verif/seeded/C03-{a,b} and verify them myself:
 # demo exit 0 on clean copy, exit 1 with the patch, suite green with the patch.
 ID="$1"
-for V in a b; do
+for V in ${VARIANTS:-a b}; do
   S="/tmp/wt/$ID/_seed/$V"; [ -f "$S/patch.diff" ] || { echo "$ID-$V: no patch"; continue; }
   T="/verif/seeded/$ID-$V"; mkdir -p "$T"; cp "$S/patch.diff" "$S/demo.py" "$T/"; cp "$S/meta.json" "$T/meta.agent.json" 2>/dev/null
   D="$(mktemp -d /tmp/hgseed.XXXXXX)"
